@@ -2,6 +2,8 @@
  * set values according to linear type parameters
  */
 
+#include <float.h>
+
 #include "values.h"
 
 /*!
@@ -30,7 +32,13 @@ extern void mpt_values_linear(long points, double *target, long ld, double min, 
 	
 	target[0] = min;
 	
-	for (i = 1; i < len; i++) {
+	/* distance of finite bounds exceeds the value range: weight the bounds instead */
+	if (dv > DBL_MAX || dv < -DBL_MAX) {
+		for (i = 1; i < len; i++) {
+			target[i * ld] = min * ((double) (len - i) / len) + max * ((double) i / len);
+		}
+	}
+	else for (i = 1; i < len; i++) {
 		target[i * ld] = min + i * dv;
 	}
 	target[len * ld] = max;
